@@ -21,6 +21,14 @@ _INPLACE = {"+": operator.iadd, "-": operator.isub, "*": operator.imul, "/": ope
             "<<": operator.ilshift, ">>": operator.irshift, "^": operator.ixor}
 
 
+def rkey(kind, key):
+    """the key object really passed to the container / reference for a path step"""
+    if kind == "n":
+        import numpy as np
+        return np.int64(key)
+    return key
+
+
 def _nav(roots, path):
     c = roots[path[0]]
     for kind, key in path[1:]:
@@ -32,14 +40,14 @@ def user_get(roots, path):
     """Read a location the way user code does (logged, faultable)."""
     c = _nav(roots, path[:-1])
     kind, key = path[-1]
-    return c[key] if kind == "i" else getattr(c, key)
+    return c[rkey(kind, key)] if kind in ("i", "n") else getattr(c, key)
 
 
 def user_set(roots, path, v):
     c = _nav(roots, path[:-1])
     kind, key = path[-1]
-    if kind == "i":
-        c[key] = v
+    if kind in ("i", "n"):
+        c[rkey(kind, key)] = v
     else:
         setattr(c, key, v)
 
@@ -105,7 +113,7 @@ class World:
     def _new_container(self, ctype, items, path):
         if ctype == "dict":
             c = SimDict(items)
-        elif ctype == "list":
+        elif ctype in ("list", "nplist"):
             c = SimList([v for _, v in items])
         else:
             c = SimObj(**dict(items))
@@ -143,8 +151,8 @@ class World:
         if path[0] in self.wrap:
             r = r[self.wrap[path[0]]]
         for kind, key in path[1:]:
-            if kind == "i":
-                r = r[key]
+            if kind in ("i", "n"):
+                r = r[rkey(kind, key)]
             elif kind == "a":
                 r = getattr(r, key)
             else:
@@ -202,7 +210,7 @@ class World:
         if base is None:
             return None
         ctype = self.spec.containers.get(base) or self.spec.root_mode.get(base[0], (None, None))[1]
-        kind = "a" if ctype == "obj" else "i"
+        kind = "a" if ctype == "obj" else ("n" if ctype == "nplist" else "i")
         return base + ((kind, ev[2]),)
 
     # ---- assignment styles -----------------------------------------------------
@@ -216,7 +224,7 @@ class World:
                               and path[0] not in self.wrap):
             setattr(owner, key, value)
         else:
-            owner[key] = value
+            owner[rkey(kind, key)] = value
 
     def taskid(self, tid):
         if tid[0] == "e":
@@ -242,9 +250,9 @@ class World:
                 tmp = _INPLACE[o](tmp, x)
                 setattr(owner, key, tmp)
             else:
-                tmp = owner[key]
+                tmp = owner[rkey(k, key)]
                 tmp = _INPLACE[o](tmp, x)
-                owner[key] = tmp
+                owner[rkey(k, key)] = tmp
         elif kind == "unreg":
             mgr.unregister(self.ref(op[1]))
         elif kind == "setc":
